@@ -105,11 +105,23 @@ int main(int argc, char** argv)
     const int n = argc > 1 ? std::atoi(argv[1]) : 4;
     const int rounds = argc > 2 ? std::atoi(argv[2]) : 3;
     const unsigned seed = argc > 3 ? (unsigned)std::atoi(argv[3]) : 1;
+    // mode (argv[5]): "warm" (default) = registries initialised and solo reference runs first, in this process;
+    //   "soloonly" = only the solo runs (prints their hashes); "cold" = the concurrent runs are the FIRST use of the
+    //   library in this process (no initialisation, no solo runs: first-use races of the process-wide registries);
+    //   the expected hashes then come from a "soloonly" process (argv[6..])
+    const std::string mode = argc > 5 ? argv[5] : "warm";
     mfuse::verif::clockHook = &vh::clockFn;
-    EventSystem::Get();
     std::vector<std::string> solo(n), conc(n);
-    // the solo runs: one fresh OS thread per workload, one after the other (thread-local state starts at its defaults, as in the concurrent run)
-    for (int i = 0; i < n; ++i) { std::thread t([&, i]() { solo[i] = runOne(i, rounds, seed); }); t.join(); }
+    if (mode != "cold") {
+        EventSystem::Get();
+        // the solo runs: one fresh OS thread per workload, one after the other (thread-local state starts at its defaults, as in the concurrent run)
+        for (int i = 0; i < n; ++i) { std::thread t([&, i]() { solo[i] = runOne(i, rounds, seed); }); t.join(); }
+    }
+    if (mode == "soloonly") {
+        for (int i = 0; i < n; ++i) std::printf("solo %d %016llx\n", i, (unsigned long long)fnv(solo[i]));
+        std::fflush(stdout);
+        std::_Exit(0);
+    }
     std::atomic<int> go{0};
     std::vector<std::thread> th;
     for (int i = 0; i < n; ++i) {
@@ -123,9 +135,12 @@ int main(int argc, char** argv)
     for (auto& t : th) t.join();
     int bad = 0;
     for (int i = 0; i < n; ++i) {
-        std::printf("t%d solo=%016llx conc=%016llx lines=%zu %s\n", i, (unsigned long long)fnv(solo[i]), (unsigned long long)fnv(conc[i]),
-                    (size_t)std::count(conc[i].begin(), conc[i].end(), '\n'), solo[i] == conc[i] ? "same" : "DIFFERENT");
-        if (solo[i] != conc[i]) bad++;
+        unsigned long long want = fnv(solo[i]);
+        if (mode == "cold") want = (argc > 6 + i) ? std::strtoull(argv[6 + i], nullptr, 16) : 0;
+        const bool same = want == fnv(conc[i]);
+        std::printf("t%d solo=%016llx conc=%016llx lines=%zu %s\n", i, want, (unsigned long long)fnv(conc[i]),
+                    (size_t)std::count(conc[i].begin(), conc[i].end(), '\n'), same ? "same" : "DIFFERENT");
+        if (!same) bad++;
     }
     if (argc > 4) std::printf("--- output of t%d ---\n%s", std::atoi(argv[4]) % n, solo[std::atoi(argv[4]) % n].c_str());
     std::fflush(stdout);
